@@ -620,10 +620,21 @@ func isNullValue(fd protoreflect.FieldDescriptor) bool {
 
 type params []param
 
+// ownField returns m's own descriptor of the field fd. The handlers of one method can be
+// registered with different instances of the same descriptor (a local service and a
+// proxied connection, two connections): fields are matched by number.
+func ownField(m protoreflect.Message, fd protoreflect.FieldDescriptor) protoreflect.FieldDescriptor {
+	if own := m.Descriptor().Fields().ByNumber(fd.Number()); own != nil {
+		return own
+	}
+	return fd
+}
+
 func (ps params) set(m proto.Message) error {
 	for _, p := range ps {
 		cur := m.ProtoReflect()
 		for i, fd := range p.fds {
+			fd = ownField(cur, fd)
 			if len(p.fds)-1 == i {
 				switch {
 				case fd.IsList():
